@@ -51,7 +51,7 @@ def numtok(rng, x, first=False):
     return s
 
 
-def gen_data(rng, dup_share):
+def gen_data(rng, dup_share, text_layout=False):
     n = rng.randint(2, 10)
     vals = c01._times(rng, n)
     g = iogen.rand_dtg(rng, n)
@@ -68,6 +68,12 @@ def gen_data(rng, dup_share):
                                   [base, base + "_2", base + "_3", base, base], [base, base, base, base + "_3"]])
             for t, nm in zip(g["tiers"], pattern):
                 t["name"] = nm
+    if text_layout and rng.random() < 0.3:
+        # a label of white space only is an empty label once trimmed (both text layouts trim before dropping blanks)
+        for t in g["tiers"]:
+            for e in t["entries"]:
+                if rng.random() < 0.15:
+                    e[-1] = rng.choice([" ", "  ", "\t", " \t "])
     toks = {}
     for k in range(n + 1):
         toks[k] = numtok(rng, vals[k], first=(k == 0))
@@ -79,7 +85,7 @@ def gen_data(rng, dup_share):
             fl[k] = vals[k]
     for k in range(1, n + 1):
         if not fl[k] > fl[k - 1]:
-            return gen_data(rng, dup_share)
+            return gen_data(rng, dup_share, text_layout)
     return g, [toks[k] for k in range(n + 1)]
 
 
@@ -145,7 +151,7 @@ def generate(tier, rng):
     n = 700 if tier == "quick" else 25000
     for _ in range(n):
         layout = rng.choice(LAYOUTS)
-        g, toks = gen_data(rng, 0.0 if layout == "json" else 0.35)
+        g, toks = gen_data(rng, 0.0 if layout == "json" else 0.35, layout in ("long", "short", "elan-long"))
         cases.append({"op": "open", "g": g, "toks": toks, "layout": layout, "enc": rng.choice(ENCODINGS), "crlf": rng.random() < 0.4,
                       "sp": rng.random() < 0.7, "empty": rng.random() < 0.5, "dup": rng.choice(["error", "rename"]),
                       "scale": ["rank", 0]})
@@ -386,7 +392,7 @@ def py_checks(case, r):
     for k, t in enumerate(g["tiers"]):
         if case["layout"] != "json" and [Z(x) for x in o["tspans"][k]] != [float(toks[t["xmin"]]), float(toks[t["xmax"]])]:
             probs.append("tier %d span %r, file says %r" % (k, [Z(x) for x in o["tspans"][k]], [toks[t["xmin"]], toks[t["xmax"]]]))
-        want = [[H(x) for x in e[:-1]] + [e[-1]] for e in t["entries"] if (case["empty"] or e[-1] != "")]
+        want = [[H(x) for x in e[:-1]] + [e[-1].strip()] for e in t["entries"] if (case["empty"] or e[-1].strip() != "")]
         got = o["entries"][k]
         # -0 and 0 are the same time
         norm = lambda ents: [[float.fromhex(x).hex() if float.fromhex(x) != 0 else (0.0).hex() for x in e[:-1]] + [e[-1]] for e in ents]  # noqa
